@@ -9,6 +9,7 @@ import (
 	"fmt"
 	"math/big"
 	"strings"
+	"sync"
 	"testing"
 
 	"pgregory.net/rapid"
@@ -136,10 +137,42 @@ func vfReleasePlan(rt *rapid.T, s *vfSess, w *vfEnd) {
 	}
 }
 
+var (
+	vfCarryMu    sync.Mutex
+	vfCarryCache = map[string][2]*refobfs3.CarryHit{}
+)
+
+// vfCarryKey finds (deterministically; cached per process for the expensive
+// 32-bit search) a private key for the reference party.
+func vfCarryKey(mode string, realPub []byte, dirInit bool) *refobfs3.CarryHit {
+	idx := 1
+	if dirInit {
+		idx = 0
+	}
+	switch mode {
+	case "k16":
+		hi, hr := refobfs3.SearchKey(realPub, 16, 256, 1<<16, dirInit, !dirInit)
+		return [2]*refobfs3.CarryHit{hi, hr}[idx]
+	case "k24":
+		hi, hr := refobfs3.SearchKey(realPub, 24, 4096, 1<<18, dirInit, !dirInit)
+		return [2]*refobfs3.CarryHit{hi, hr}[idx]
+	}
+	key := string(realPub)
+	vfCarryMu.Lock()
+	defer vfCarryMu.Unlock()
+	h, ok := vfCarryCache[key]
+	if !ok {
+		hi, hr := refobfs3.SearchKey(realPub, 32, 16384, 1<<23, true, true)
+		h = [2]*refobfs3.CarryHit{hi, hr}
+		vfCarryCache[key] = h
+	}
+	return h[idx]
+}
+
 func TestVerifC13Stream(t *testing.T) {
 	vfC13Anchor()
 	c := ev.For("C13")
-	c.Rule("stream: lock-step cases over the gated wire: arrangement (real<->real, real client<->reference server, reference client<->real server), reference private key (uniform, 0, 1, 2, all-ff, p, p-1; X or p-X sent) and padding per phase (0, 1, 4096, 4097, uniform), deterministic randomness of the real side, 6..36 actions write(side,n) / release(direction, plan: 1 byte, few, k, all, up to key/first-flight/magic-start/magic-end/write boundary -1/0/+1, dribble, magic split at offset j with rest alone / rest+data / one byte) / readSmall; oracle after every released segment and write at quiescence: reader holds exactly plaintext[:released-preamble]; non-trivial = a segment boundary strictly inside a magic value, or payload in the same segment as the end of a magic, or an extreme reference padding length; fingerprint = config + action list; in ~45 % of the cases the padding lengths drawn by the real sides are steered to 0, 1, 4096, 4097 (and 4098, which a correct sender maps to 0) by answering the 8-byte read behind csrand.IntRange")
+	c.Rule("stream: lock-step cases over the gated wire: arrangement (real<->real, real client<->reference server, reference client<->real server), reference private key (uniform, 0, 1, 2, all-ff, p, p-1; X or p-X sent) and padding per phase (0, 1, 4096, 4097, uniform), deterministic randomness of the real side, 6..36 actions write(side,n) / release(direction, plan: 1 byte, few, k, all, up to key/first-flight/magic-start/magic-end/write boundary -1/0/+1, dribble, magic split at offset j with rest alone / rest+data / one byte) / readSmall; oracle after every released segment and write at quiescence: reader holds exactly plaintext[:released-preamble]; non-trivial = a segment boundary strictly inside a magic value, or payload in the same segment as the end of a magic, or an extreme reference padding length; fingerprint = config + action list; in 40 % of the mixed cases the reference party searches its private key (small even exponents, after seeing the real side's public value) so that the initial counter of one session stream wraps its low 16 / 24 / 32 bits within 256 / 4096 / 16384 blocks and that direction carries enough data to cross the wrap; in ~45 % of the cases the padding lengths drawn by the real sides are steered to 0, 1, 4096, 4097 (and 4098, which a correct sender maps to 0) by answering the 8-byte read behind csrand.IntRange")
 	c.Assume("HMAC-SHA256, AES-CTR and math/big of the Go standard library are trusted (shared with the reference peer)")
 	c.Floor("arr-realC-refS/stream", 0.22)
 	c.Floor("arr-refC-realS/stream", 0.22)
@@ -150,6 +183,10 @@ func TestVerifC13Stream(t *testing.T) {
 	c.Floor("refpad-total-8194/mixed", 0.04)
 	c.Floor("realpad-extreme/stream", 0.15) // the steering of the real side's padding draw works
 	c.Floor("realpad-total-8194/stream", 0.03)
+	c.Floor("ctr-32bit-carry-crossed/mixed", 0.10)
+	c.Floor("ctr-24bit-carry-crossed/mixed", 0.15)
+	c.Floor("ctr-16bit-carry-crossed/mixed", 0.20)
+	c.Floor("ctr-8bit-carry-crossed/mixed", 0.35)
 	rapid.Check(t, func(rt *rapid.T) { vfC13StreamCase(rt, c) })
 }
 
@@ -187,7 +224,35 @@ func vfC13StreamCase(rt *rapid.T, c *ev.Collector) {
 			force[i] = [2]int{rapid.SampledFrom(vals).Draw(rt, "force1"), rapid.SampledFrom(vals).Draw(rt, "force2")}
 		}
 	}
-	s := vfOpenForced(arr, rk, par[0], par[1], wireCap, force, func(msg string) { rt.Fatalf("%s", msg) })
+	// Counter carries of the session streams (mixed arrangements): the reference
+	// party, having seen the real side's public value, searches a private key
+	// (small even exponents: one modular multiplication per candidate) such that
+	// the initial counter of one stream wraps its low 16 / 24 / 32 bits within a
+	// known number of blocks; that direction then carries enough data to cross it.
+	carry, carryInit := "none", false
+	var carryDist uint64
+	var choose func([]byte, *refobfs3.Params)
+	if arr != vfArrRR {
+		carry = rapid.SampledFrom([]string{"none", "none", "none", "none", "none", "none", "k16", "k24", "k32", "k32"}).Draw(rt, "carry")
+		carryInit = rapid.Bool().Draw(rt, "carry-initiator-stream")
+		if carry == "k32" {
+			nk := uint64(1) // the 32-bit search is expensive: one real key per process (cached)
+			if ev.Thorough() {
+				nk = 3
+			}
+			rk = rk % nk
+		}
+		if carry != "none" {
+			choose = func(realPub []byte, ref *refobfs3.Params) {
+				h := vfCarryKey(carry, realPub, carryInit)
+				if h == nil {
+					rt.Fatalf("harness: key search (%s) found nothing", carry)
+				}
+				ref.Priv, carryDist = h.Priv, h.Dist
+			}
+		}
+	}
+	s := vfOpenChoose(arr, rk, par[0], par[1], wireCap, force, choose, func(msg string) { rt.Fatalf("%s", msg) })
 	defer s.close()
 
 	// Opening: most cases let both sides learn the peer's key first (obfs3 can
@@ -216,6 +281,30 @@ func vfC13StreamCase(rt *rapid.T, c *ev.Collector) {
 			k := rapid.SampledFrom([]int{1, 7, 16, 1427, 65536}).Draw(rt, "rbuf")
 			e.ep.SetBuf(k)
 			s.hist = append(s.hist, fmt.Sprintf("rbuf(%v,%d)", e.side, k))
+		}
+	}
+	if carry != "none" {
+		// crossing phase
+		for _, e := range s.ends {
+			if int(s.n.Released(e.side)) < refobfs3.UDHSize {
+				s.release(e, refobfs3.UDHSize-int(s.n.Released(e.side)), "pubkey")
+			}
+		}
+		w := s.ends[1]
+		if carryInit {
+			w = s.ends[0]
+		}
+		wrapAt := int(16 * carryDist)
+		if len(w.sent) < wrapAt+1 {
+			if k := wrapAt - len(w.sent) + rapid.IntRange(-40, 16).Draw(rt, "cross-first"); k > 0 {
+				s.write(w, k)
+			}
+		}
+		for _, k := range []int{rapid.IntRange(1, 100).Draw(rt, "cross-second"), rapid.IntRange(16, 3000).Draw(rt, "cross-third")} {
+			s.write(w, k)
+			if rapid.Bool().Draw(rt, "cross-release") {
+				vfReleasePlan(rt, s, w)
+			}
 		}
 	}
 	s.drain()
@@ -278,7 +367,30 @@ func vfC13StreamCase(rt *rapid.T, c *ev.Collector) {
 		}
 	}
 	if arr != vfArrRR {
-		cls = append(cls, "mixed")
+		cls = append(cls, "mixed", "carry-mode-"+carry)
+		for _, e := range s.ends {
+			if e.real || e.ref == nil {
+				continue
+			}
+			k := e.ref.Keys()
+			for _, d := range []struct {
+				iv []byte
+				n  int
+			}{{k.InitCtr, len(s.ends[0].sent)}, {k.RespCtr, len(s.ends[1].sent)}} {
+				for _, bits := range []uint{8, 16, 24, 32} {
+					if refobfs3.CarryCrossed(d.iv, bits, d.n) {
+						name := fmt.Sprintf("ctr-%dbit-carry-crossed", bits)
+						dup := false
+						for _, x := range cls {
+							dup = dup || x == name
+						}
+						if !dup {
+							cls = append(cls, name)
+						}
+					}
+				}
+			}
+		}
 	}
 	if split {
 		cls = append(cls, "magic-split")
@@ -305,12 +417,12 @@ func vfC13StreamCase(rt *rapid.T, c *ev.Collector) {
 	}
 	nt := split || coal || extreme || realExtreme
 	h := strings.Join(s.hist, " ")
-	c.Case(ev.Hash("stream", arr, rk, vfParStr(s.ends[0]), vfParStr(s.ends[1]), fmt.Sprint(wireCap), fmt.Sprint(force), h), nt, cls, func() any {
+	c.Case(ev.Hash("stream", arr, rk, vfParStr(s.ends[0]), vfParStr(s.ends[1]), fmt.Sprint(wireCap), fmt.Sprint(force), carry, carryInit, h), nt, cls, func() any {
 		hh := h
 		if len(hh) > 600 {
 			hh = hh[:600] + fmt.Sprintf(" ...(%d actions)", len(s.hist))
 		}
-		return map[string]any{"arrangement": vfArrNames[arr], "detrand": rk, "refA": vfParStr(s.ends[0]), "refB": vfParStr(s.ends[1]), "force": fmt.Sprint(force),
+		return map[string]any{"arrangement": vfArrNames[arr], "detrand": rk, "refA": vfParStr(s.ends[0]), "refB": vfParStr(s.ends[1]), "force": fmt.Sprint(force), "carry": carry,
 			"preambleA": s.ends[0].pre, "preambleB": s.ends[1].pre, "bytesAtoB": len(s.ends[0].sent), "bytesBtoA": len(s.ends[1].sent), "actions": hh}
 	})
 }
